@@ -5,6 +5,7 @@ CONSTANTS MaxIdx = 9
           MaxReaders = 4
           MaxRF = 3
           Depth = 99
+          ReaderAtStart = FALSE
           DupMode = "all"
           QMode = "all"
 CHECK_DEADLOCK FALSE
